@@ -301,6 +301,14 @@ def run_units(ctx, p):
         ctx.judge('units', close(d[1], r[1], rtol=1e-12, atol=1e-12 * max(1.0, amax)), dict(sig, kind='deg_input_differs'),
                   lambda: "%s: unit='deg' with %s gives %s, unit='rad' with %s gives %s" % (
                       e['name'], a_deg, core.short(d[1].data if isinstance(getattr(d[1], "data", None), list) else d[1], 300), a_rad, core.short(r[1].data if isinstance(getattr(r[1], "data", None), list) else r[1], 300)))
+        if t == 'unit_in:vec' and e['args'][apos][0] == 'V' and e['args'][apos][1] is None and 0 < np.size(a_rad) < 64:
+            # the same angles repeated up to 70 elements: a long vector takes the same conversion as a short one
+            aL, dL = np.resize(a_rad, 70), np.resize(a_deg, 70)
+            r2 = attempt(e, args[:apos] + [aL.tolist()] + args[apos + 1:], dict(kwargs, **{uk: 'rad'}), recv_of(p))
+            d2 = attempt(e, args[:apos] + [dL.tolist()] + args[apos + 1:], dict(kwargs, **{uk: 'deg'}), recv_of(p))
+            if r2[0] == 'ok' or d2[0] == 'ok':
+                ctx.judge('units', r2[0] == d2[0] and close(d2[1], r2[1], rtol=1e-12, atol=1e-12 * max(1.0, amax)), dict(sig, kind='deg_input_differs', long_vector=True),
+                          lambda: "%s: a vector of 70 angles in degrees and the same in radians give different results (%s / %s)" % (e['name'], d2[0], r2[0]))
     elif outtag:
         t = outtag[0]
         r = attempt(e, args, dict(kwargs, **{uk: 'rad'}), recv_of(p))
@@ -355,7 +363,7 @@ def run_scalars(ctx, p):
     e = entry_of(p)
     args, kwargs, pos = p['args'], p['kwargs'], p['pos']
     v = int(p['value'])
-    given = {'float': float(v), 'int': v, 'np.float64': np.float64(v), 'np.int64': np.int64(v)}
+    given = {'float': float(v), 'int': v, 'np.float64': np.float64(v), 'np.int64': np.int64(v), 'np.float32': np.float32(v), 'np.float16': np.float16(v)}
     base_res = attempt(e, *setpos(args, kwargs, pos, float(v)), recv_of(p))
     if 'random' in e['tags']:
         return
